@@ -1,83 +1,26 @@
 #!/venv/bin/python
-"""tools/variant_repro.py <replay.json | known_findings.d/variants.json KEY>   [VERIF_REPO=/path]
+"""tools/variant_repro.py <replay.json>        |   tools/variant_repro.py known_findings.d/variants.json   [VERIF_REPO=/path]
 
-Re-run the call recorded under `_input_variant` of a replay file (or of a finding's witness) twice: on the float64 C-ordered
-arrays as written in the file, and on the same values in the recorded representation (common.apply_variant).  Prints both
-outcomes; exit code 1 when they differ (exception vs result, or different values), 0 when they agree."""
-import sys, os, json
+A replay file of a failure found by the input-representation layer carries `_input_variant` records (function, kind, the call as
+the harness made it).  This re-runs each recorded call twice - on the float64 C-ordered arrays as written and on the same values in
+the recorded storage (common.apply_variant) - and prints both outcomes; exit code 1 when they differ.  (./check CXX --replay <file>
+does the same after the property's own replay.)  Given known_findings.d/variants.json it runs every witness script instead."""
+import sys, os, json, subprocess
 sys.path.insert(0, os.path.join(os.path.dirname(os.path.dirname(os.path.abspath(__file__))), 'harness'))
 import common
-from common import np
-
-
-def dec(x):
-    if isinstance(x, dict) and 'ndarray' in x:
-        return np.array(x['ndarray'], dtype=np.dtype(x['dtype'])).reshape(x['shape'])
-    if isinstance(x, list):
-        return [dec(y) for y in x]
-    return x
-
-
-def records(payload):
-    out = []
-    def walk(x):
-        if isinstance(x, dict):
-            v = x.get('_input_variant')
-            if v:
-                out.extend([v] if isinstance(v, dict) else v)
-            for y in x.values():
-                walk(y)
-        elif isinstance(x, list):
-            for y in x:
-                walk(y)
-    walk(payload)
-    return out
-
-
-def outcome(f, a, k):
-    try:
-        return 'ok', common.call(f, *a, _t=60.0, **k)
-    except Exception as e:
-        return 'raised', '%s: %s' % (type(e).__name__, str(e)[:200])
-
-
-def same(x, y):
-    if isinstance(x, (tuple, list)) and isinstance(y, (tuple, list)):
-        return len(x) == len(y) and all(same(p, q) for p, q in zip(x, y))
-    try:
-        return bool(np.allclose(np.asarray(x, float), np.asarray(y, float), rtol=1e-9, atol=1e-12, equal_nan=True))
-    except Exception:
-        return repr(x) == repr(y)
 
 
 def main():
     payload = json.load(open(sys.argv[1]))
-    if len(sys.argv) > 2:
-        payload = [f for f in payload['findings'] if f.get('key') == sys.argv[2]]
-    import bct
-    rc = 0
-    for r in records(payload)[:4]:
-        f = getattr(bct, r['function'])
-        a, k = dec(r['call']['args']), {q: dec(v) for q, v in r['call']['kwargs'].items()}
-        a2, k2 = list(a), dict(k)
-        for w in r['arguments']:
-            if w.startswith('positional '):
-                i = int(w.split()[1]); a2[i] = common.apply_variant(r['kind'], a[i])
-            else:
-                k2[w] = common.apply_variant(r['kind'], k[w])
-        if any(isinstance(x, str) and x.startswith('<') for x in list(a) + list(k.values())):
-            print('note: an argument of the recorded call is an object (generator?) that the file cannot hold: %r' % [x for x in list(a) + list(k.values()) if isinstance(x, str)])
-        s0, r0 = outcome(f, [x.copy() if isinstance(x, np.ndarray) else x for x in a], k)
-        s1, r1 = outcome(f, a2, k2)
-        print('%s, argument(s) %s as %s' % (r['function'], r['arguments'], r['kind']))
-        print('  float64 C-ordered : %s %s' % (s0, str(common.tolist(r0))[:600]))
-        print('  %-18s: %s %s' % (r['kind'], s1, str(common.tolist(r1))[:600]))
-        differ = s0 != s1 or (s0 == 'ok' and not same(r0, r1))
-        print('  -> %s' % ('DIFFERENT outcomes for the same values' if differ else 'same outcome'))
-        rc |= int(differ)
-    if not records(payload):
-        print('no _input_variant record in this file')
-    return rc
+    if 'findings' in payload and not common.variant_records(payload):
+        for f in payload['findings']:
+            for name, script in (f.get('witnesses') or {}).items():
+                p = subprocess.run([sys.executable, '-W', 'ignore', '-c', script], capture_output=True, text=True, env=dict(os.environ, PYTHONPATH=common.REPO))
+                print('%s %s: %s' % (f['property'], name, (p.stdout.strip().replace('\n', ' || ') + ' ' + p.stderr.strip().split('\n')[-1])[:300]))
+        return 0
+    if not common.variant_records(payload):
+        print('no _input_variant record in this file'); return 0
+    return common.replay_variants(payload, limit=16)
 
 
 if __name__ == '__main__':
